@@ -107,8 +107,72 @@ def impl_rows(case):
     return engine_corr.parse_out(common.run_impl_py([line])[0])
 
 
+CSV_SINK_IMPL = r'''
+import sys, json, os, tempfile, shutil
+import rbql
+from rbql import rbql_csv, csv_utils
+out = []
+d = tempfile.mkdtemp(prefix='rbqlverif_c02csv_')
+try:
+    for q, T in json.loads(sys.stdin.read()):
+        inp, outp = os.path.join(d, 'in.csv'), os.path.join(d, 'out.csv')
+        with open(inp, 'w', encoding='utf-8', newline='') as f:
+            for r in T: f.write(','.join(csv_utils.quote_field(x, ',') for x in r) + '\n')
+        o = {}
+        try:
+            ref = []
+            rbql.query_table(q, [r[:] for r in T], ref, [])
+            o['table'] = [['' if x is None else str(x) for x in r] for r in ref]
+        except Exception as e:
+            o['table'] = 'err ' + type(e).__name__
+        try:
+            rbql_csv.query_csv(q, inp, ',', 'quoted', outp, ',', 'quoted', 'utf-8', [], False)
+            o['csv'] = [csv_utils.split_quoted_str(l, ',')[0] for l in open(outp, encoding='utf-8', newline='').read().split('\n')[:-1]]
+        except Exception as e:
+            o['csv'] = 'err ' + type(e).__name__
+        out.append(o)
+finally:
+    shutil.rmtree(d, ignore_errors=True)
+print(json.dumps(out))
+'''
+
+
+def csv_sink_check(res, tier, seed):
+    """DISTINCT / ORDER BY / TOP in front of the CSV writer, which renders the record it is handed (numbers to text, quoting): the rendering must
+    not leak back into what the DISTINCT / sort stages remember (oracle: the same query through query_table, rendered afterwards)"""
+    import subprocess
+    import common
+    rnd = random.Random(seed * 53 + 2)
+    cases = []
+    pool = ['1', '2', '10', 'x,y', 'q"t', 'plain', '']
+    for _ in range(250 if tier == 'quick' else 4000):
+        T = [[rnd.choice(pool[:3]), rnd.choice(pool[3:])] for _r in range(rnd.randint(1, 7))]
+        sel = rnd.choice(['int(a1)', 'a2', 'int(a1), a2', 'a2, int(a1) * 2', 'a1', '[int(a1), a2]', 'None if a2 == "" else a2, a1', 'float(a1), a2'])
+        q = 'select %s%s%s%s' % (rnd.choice(['', 'top 2 ', 'top 3 ']), rnd.choice(['distinct ', 'distinct ', 'distinct count ', '']), sel, rnd.choice(['', '', ' order by int(a1)', ' order by a2 desc']))
+        cases.append((q, T))
+    r = subprocess.run([common.PY, '-W', 'ignore', '-c', CSV_SINK_IMPL], input=json.dumps(cases).encode(), env=common.impl_env(), stdout=subprocess.PIPE, stderr=subprocess.PIPE, timeout=900)
+    try:
+        outs = json.loads(r.stdout.decode().strip().split('\n')[-1])
+    except (ValueError, IndexError):
+        raise RuntimeError('C02 csv-sink driver failed: ' + r.stderr.decode()[-400:])
+    nbad = 0
+    for (q, T), o in zip(cases, outs):
+        res.evaluations += 1
+        res.nontrivial.add(('csv-sink', q, json.dumps(T)))
+        if '[int(a1), a2]' in q and isinstance(o['table'], list):
+            continue        # a list-valued cell is rendered by the CSV writer in its own way: only the error / no-error outcome is compared above
+        if o['table'] != o['csv']:
+            nbad += 1
+            if nbad <= 3:
+                res.violations.append({'property': 'C02', 'impl': 'py', 'why': 'the same DISTINCT / ORDER BY / TOP query gives another result when the records go to the CSV writer than when they go to a list', 'query': q, 'A': T,
+                                       'through_query_table': o['table'], 'through_query_csv': o['csv'], 'case_key': 'C02|csv-sink|%s|%s' % (q, json.dumps(T))})
+    res.count('csv_sink_cases', len(cases))
+    res.count('csv_sink_failures', nbad)
+
+
 def run(res, tier, seed):
     res.rule = RULE
+    csv_sink_check(res, tier, seed)
     res.assumptions = ['ORDER BY keys of one type (Python raises TypeError otherwise)', 'DISTINCT rows hashable (no list-valued cells)']
     rnd = random.Random(seed * 2750159 + 2)
     cases = gen_cases(rnd, 14000 if tier == 'quick' else 150000)
